@@ -330,7 +330,9 @@ def rule_r3(ctx):
                     continue
                 raise Unrecognised("C05.R3", f"{Z3H}:{name}", f"constructor {src(ctor)} not understood")
             construct = f"{Z3H}:{name}"
-            found_effect = scan_effects(ctx, module, construct, ctor_body_exprs(ctor), {p}, ctor, p, 0, set())
+            g = first_guard(h)
+            gtxt = f" [guard {g.kind}:{','.join(g.values)}]" if g is not None else ""
+            found_effect = scan_effects(ctx, module, construct, ctor_body_exprs(ctor), {p}, ctor, p, 0, set(), gtxt)
             if not found_effect:
                 ctx.ok("R3-may-raise", construct, f"constructor {nsrc(ctor)[:60]}", site(call), "no raising construct in the constructor")
             n += 1
@@ -338,7 +340,7 @@ def rule_r3(ctx):
         raise Unrecognised("C05.R3", f"{Z3H}:evaluate_z3_expression", f"only {n} constructors analysed (expected >= 25)")
 
 
-def scan_effects(ctx, module, construct, bodies, tainted, stop, tuple_param, depth, seen) -> bool:
+def scan_effects(ctx, module, construct, bodies, tainted, stop, tuple_param, depth, seen, gtxt="") -> bool:
     """May-raise / wraparound effects of expressions over SMT values.  `tainted` = names holding SMT-derived values;
     `tuple_param` = the constructor's children tuple (constant index into it is operator arity, not a string index).
     Calls to helper functions defined in the same module are followed (inlining bound 2)."""
@@ -415,7 +417,7 @@ def scan_effects(ctx, module, construct, bodies, tainted, stop, tuple_param, dep
                     inner = m.group(1)
                 guarded = any((t in (f"{d} == 0", f"{inner} == 0") and not pos) or (t in (f"{d} != 0", f"{inner} != 0") and pos) for t, pos in ft)
                 guarded = guarded or _in_try_catching(node, ("ZeroDivisionError", "ArithmeticError"), stop)
-                ctx.check(guarded, "R3-may-raise", construct, f"ZeroDivisionError: {nsrc(node)}", site(node),
+                ctx.check(guarded, "R3-may-raise", construct, f"ZeroDivisionError: {nsrc(node)}{gtxt}", site(node),
                           "a zero divisor raises ZeroDivisionError out of the fast path instead of being answered (Z3 treats division by zero as an uninterpreted value)",
                           "divisor guarded")
             # --- ord
@@ -442,7 +444,7 @@ def scan_effects(ctx, module, construct, bodies, tainted, stop, tuple_param, dep
                 callee = module.get(node.func.id)
                 if isinstance(callee, ast.FunctionDef) and callee.name not in seen and any(refs(a) for a in node.args) and callee.name not in ("evaluate_z3_expression", "construct_result"):
                     params = {a.arg for a in callee.args.args}
-                    sub = scan_effects(ctx, module, f"{construct}->{callee.name}", list(callee.body), params, callee, None, depth + 1, seen | {callee.name})
+                    sub = scan_effects(ctx, module, f"{construct}->{callee.name}", list(callee.body), params, callee, None, depth + 1, seen | {callee.name}, gtxt)
                     found_effect = found_effect or sub
     return found_effect
 
@@ -703,6 +705,13 @@ EXPECT_CMP = {
     "z3pred:z3.is_ge": ">=",
     "z3pred:z3.is_eq": "==",
 }
+RECOGNISED_BAD_FOR_PRED = {
+    "z3.is_idiv": (
+        {"int(float(A[0]) / float(A[1]))", "A[0] // A[1]", "int(A[0] / A[1])"},
+        "SMT-LIB integer `div` rounds so that the remainder is non-negative and is total (Z3 answers for a zero divisor); float division truncates towards zero "
+        "((div (- 7) 2) = -4, not -3) and raises ZeroDivisionError",
+    ),
+}
 EXPECT_TEXT = {
     "z3pred:z3.is_not": {"not A[0]"},
     "z3pred:z3.is_and": {"reduce(operator.and_, A)", "all(A)"},
@@ -730,6 +739,18 @@ def rule_r6(ctx):
         if g is None:
             continue
         key = f"{g.kind}:{','.join(g.values)}"
+        for pred, (bad_bodies, why_bad) in RECOGNISED_BAD_FOR_PRED.items():
+            if g.kind == "z3pred" and pred in g.values:
+                ctors_ = constructors_of(h, module)
+                for call_, ctor_ in ctors_:
+                    p_ = ctor_param(ctor_)
+                    rets_ = ctor_return_exprs(ctor_)
+                    btxt = _re.sub(rf"\b{_re.escape(p_)}\b", "A", nsrc(rets_[0])) if p_ and len(rets_) == 1 else src(ctor_)
+                    if btxt in bad_bodies:
+                        ctx.viol("R6-guard-body", f"{Z3H}:{name}", f"{pred} -> SMT-LIB definition", site(call_), f"guard now also selects {pred} but the body is {btxt}: {why_bad}")
+                    else:
+                        raise Unrecognised("C05.R6", f"{Z3H}:{name}", f"body {btxt} for {pred} is not a recognised implementation shape")
+                    n += 1
         if key not in EXPECT_CMP and key not in EXPECT_TEXT:
             continue
         ctors = constructors_of(h, module)
